@@ -16,7 +16,7 @@ use std::time::Duration;
 pub const PROP: PropDef = PropDef {
     id: "C18",
     parts,
-    rule: "histories (length <= 3 quick / 4 thorough) over {install attempt: plan id {P,Q} x offered apps {system only, system+other, other only} x per-app result {installed, failed, deferred} x manifest version present/absent; plan-creation failure; idle loop iteration; restart: os version {target, other} x clocks {consistent, wall clock behind the stored finish time until a later loop, monotonic clock racing ahead of the wall clock}}; after every clean install the storage that survives a crash at the first reboot question is rebuilt on the target version; non-trivial = history contains an install attempt and a restart",
+    rule: "histories (length <= 3 quick / 4 thorough) over {install attempt: plan id {P,Q} x offered apps {system only, system+other, other only} x per-app result {installed, failed, deferred} x manifest version present/absent; plan-creation failure; idle loop iteration; restart: os version {target, other} x clocks {consistent, wall clock behind the stored finish time until a later loop, monotonic clock racing ahead of the wall clock}}; in every attempt the storage that survives a crash while the installer runs is rebuilt and offered the same plan an hour later; after every clean install the storage that survives a crash at the first reboot question is rebuilt on the target version; non-trivial = history contains an install attempt and a restart",
     assumptions: &[
         "durations are checked against clock windows of the steps involved (the harness clock advances ~1 s per read, steps do not overlap)",
         "the system app is the first app of the set (VecAppSet)",
@@ -103,6 +103,7 @@ fn run_one(ctx: &RunCtx, max_len: usize) -> RunOut {
             (g.clock.wall, g.clock.mono, g.log.len(), g.clock.reads)
         };
         let mut new_clean_record = false;
+        let mut attempt_doc: Option<Vec<AppDoc>> = None;
         match &step {
             Step::Attempt { plan, offered, results, manifest } => {
                 saw_attempt = true;
@@ -112,6 +113,7 @@ fn run_one(ctx: &RunCtx, max_len: usize) -> RunOut {
                     1 => vec![AppDoc::new("app-SYS", sys_uc), AppDoc::new("app-B", docgen::Uc::OkManifest("7.7.7.7".into()))],
                     _ => vec![AppDoc::new("app-SYS", docgen::Uc::NoUpdate), AppDoc::new("app-B", docgen::Uc::OkManifest("7.7.7.7".into()))],
                 };
+                attempt_doc = Some(doc.clone());
                 {
                     let mut k = h.knobs();
                     k.uc = Uc::Update;
@@ -186,6 +188,26 @@ fn run_one(ctx: &RunCtx, max_len: usize) -> RunOut {
                 match &first_seen {
                     Some((p, _)) if p == plan => {}
                     _ => first_seen = Some((*plan, this)),
+                }
+                // crash while the installer runs: the plan id and its first-seen time must already be
+                // durable - a machine rebuilt on the storage surviving that crash, offered the same
+                // plan an hour later and installing it, measures from the first sighting
+                if let Some(p) = seg.iter().position(|o| matches!(o, Obs::InstallCall { .. })) {
+                    let commits_before = log[..l0 + p].iter().filter(|o| matches!(o, Obs::St { op: StOp::Commit, ok: true })).count();
+                    let hist_snaps = h.ex().w.lock().unwrap().store.history.clone();
+                    let snap = if commits_before == 0 { Default::default() } else { hist_snaps[commits_before - 1].clone() };
+                    let fs = first_seen.as_ref().unwrap().1;
+                    let wall0 = hi + 3_600_000_000_000;
+                    let (ds, wall1) = rebuild_first_seen(&setup, &snap, ["plan-P", "plan-Q"][*plan], attempt_doc.clone().unwrap(), results.len(), wall0);
+                    let ok = ds.len() == 1 && ns(ds[0]) >= wall0 - fs.1 && ns(ds[0]) <= wall1 - fs.0;
+                    if !ok {
+                        fail.get_or_insert((
+                            "first-seen time of the plan not durable when the installer starts".into(),
+                            format!("a machine rebuilt on the storage surviving a crash during the install, offered the same plan one hour later, reports update-from-first-seen {ds:?}; expected one value in [{}, {}] ns; storage {snap:?}; {steps:?}", wall0 - fs.1, wall1 - fs.0),
+                        ));
+                    }
+                } else {
+                    fail.get_or_insert(("installer not called in an install attempt".into(), format!("{steps:?}")));
                 }
                 let any_failed = results.contains(&AppRes::Failed);
                 let any_installed = results.contains(&AppRes::Installed);
@@ -345,6 +367,37 @@ fn rebuild_metrics(setup: &Setup, snap: &std::collections::BTreeMap<String, StVa
         .collect()
 }
 
+/// Start a machine on `snap` at wall time `wall`, let it run one check that is offered `plan_id`
+/// and installs everything; returns its update-from-first-seen metrics and the final wall clock.
+fn rebuild_first_seen(setup: &Setup, snap: &std::collections::BTreeMap<String, StVal>, plan_id: &str, doc: Vec<AppDoc>, n_offered: usize, wall: i128) -> (Vec<Duration>, i128) {
+    let mut s = setup.clone();
+    s.mode = Mode::Start;
+    s.blocking = Blocking::timers_only();
+    let mut k = hist::Knobs::default();
+    k.uc = Uc::Update;
+    k.doc = Some((doc, Daystart::Absent));
+    k.plan_id = plan_id.into();
+    k.install = vec![AppRes::Installed; n_offered];
+    let d = hist::HistDirector {
+        knobs: std::sync::Arc::new(std::sync::Mutex::new(k)),
+        app_ids: s.apps.iter().map(|a| a.id.clone()).collect(),
+    };
+    let outer = swap_current_world(None);
+    let mut e = Exec::new(s, Box::new(d), Store::with(snap.clone()));
+    e.w.lock().unwrap().clock.wall = wall;
+    let _ = e.run_auto(3000, |w| w.log.iter().any(|o| matches!(o, Obs::Ev(Ev::State(omaha_client::state_machine::State::Idle)))));
+    swap_current_world(outer);
+    install_seams(setup.select, setup.jitter_menu.clone());
+    let g = e.w.lock().unwrap();
+    (
+        g.log
+            .iter()
+            .filter_map(|o| if let Obs::Metric(MetricView::SuccessfulUpdateFromFirstSeen(d)) = o { Some(*d) } else { None })
+            .collect(),
+        g.clock.wall,
+    )
+}
+
 fn parts(tier: Tier) -> Vec<PartDef> {
     let mk = |name: &str, len: usize, dev: Option<usize>| {
         let cfg = match dev {
@@ -355,13 +408,13 @@ fn parts(tier: Tier) -> Vec<PartDef> {
             name,
             cfg,
             json!({"max_history_length": len, "plans": 2, "offered_configs": 3, "per_app_results": 3, "manifest": 2, "restart_os_version": 2, "restart_clocks": 3,
-                   "crash_point": "first reboot question after every clean install",
+                   "crash_points": "while the installer runs in every attempt (first-seen record), first reboot question after every clean install (finish record)",
                    "exploration": match dev { None => "full product".to_string(), Some(d) => format!("step kinds exhaustive; at most {d} non-default parameter choices per history") }}),
             move |ctx| run_one(ctx, len),
         )
     };
     match tier {
-        Tier::Quick => vec![mk("attempt-histories", 3, None)],
-        Tier::Thorough => vec![mk("attempt-histories-len4-dev5", 4, Some(5)), mk("attempt-histories-len5-dev3", 5, Some(3))],
+        Tier::Quick => vec![mk("attempt-histories-len2", 2, None), mk("attempt-histories-len3-dev5", 3, Some(5)), mk("attempt-histories-len4-dev3", 4, Some(3))],
+        Tier::Thorough => vec![mk("attempt-histories-len3", 3, None), mk("attempt-histories-len4-dev5", 4, Some(5)), mk("attempt-histories-len5-dev3", 5, Some(3))],
     }
 }
